@@ -1,9 +1,61 @@
+(** C05 — logout is final, whatever runs concurrently.
+    The machine's event lists cover every interleaving at the granularity of store commands /
+    lock operations / provider calls, any number of threads, faults, cancellation and crashes. *)
 From Coq Require Import ZArith NArith Bool List.
-From WW Require Import Gen.Params Base.AMap Model.SessionTime Model.Machine Model.Entry Proofs.MachineRefute.
+From WW Require Import Gen.Params Base.AMap Model.SessionTime Model.Machine Model.Entry
+     Proofs.MachineP Proofs.MachineFaultP Proofs.MachineRefute.
 Import ListNotations.
 Open Scope Z_scope.
+
+(** With the single conditional write, a session entry that is absent (deleted by a logout) never
+    reappears, for every continuation in which nobody logs in again under that session id. *)
+Theorem c05_deleted_stays_deleted : forall c k es s,
+  c_upd_atomic c = true -> Forall (not_login_of k) es ->
+  alookup k (w_store (m_w s)) = None ->
+  alookup k (w_store (m_w (run_events c s es))) = None.
+Proof. exact absent_stays_absent. Qed.
+Print Assumptions c05_deleted_stays_deleted.
+
+(** A logout-type request reports success only (a) after its delete command was executed (the key is then
+    absent), or (b) when the store answered that no such session exists for that cookie - never after a failed
+    or cancelled lookup / delete. *)
+Theorem c05_success_means_deleted : forall c w t f start key w' t' o,
+  t_phase t = PDel start key -> step c w t f = (w', t', o) ->
+  t_phase t' = PDone (logout_success (t_kind t)) ->
+  (t_kind t = KLogout \/ t_kind t = KLogoutLocal \/ exists sid, t_kind t = KFront sid) ->
+  alookup key (w_store w') = None /\ t_cancel t = false /\ f <> FStore.
+Proof. intros. eapply logout_del_step; eauto. Qed.
+Print Assumptions c05_success_means_deleted.
+
+(** Every request that starts (fresh thread id) while the entry is absent, in any continuation without a
+    re-login for that id, is never given a session: it is only ever reading, or refused (not authenticated,
+    not 200/204 on the session endpoints), and never reaches the provider call. *)
+Theorem c05_later_requests_unauthenticated : forall c k tid es s,
+  c_upd_atomic c = true -> Forall (not_login_of k) es ->
+  alookup k (w_store (m_w s)) = None -> alookup tid (m_ts s) = None ->
+  forall th, alookup tid (m_ts (run_events c s es)) = Some th -> cookie_key (t_cookie th) = k -> sessionless th.
+Proof. exact later_requests_sessionless. Qed.
+Print Assumptions c05_later_requests_unauthenticated.
+
+(** Why the conditional write is needed (pre-fix code, flag off): the logout answers 302 and the entry is back,
+    without expiry. Replayed on the real code before the fix. *)
 Theorem c05_update_race_refuted :
   let s := run_events (cfg_redis false false false) (init_state 3600) race_schedule in
   thread_done s 2 (OStatus 302) /\ exists e, store_get (m_w s) 1 = Some e /\ e_exp e = None.
 Proof. exact update_race_resurrects. Qed.
 Print Assumptions c05_update_race_refuted.
+
+(** The hypothesis "no re-login under the same id" cannot be dropped: on the current (fixed) code an in-flight
+    refresh overwrites the entry of a re-login; the logged-out cookie then authenticates again. Known finding. *)
+Theorem c05_relogin_overwrite_refuted :
+  let s := run_events (cfg_redis true true true) (init_state 3600) relogin_schedule in
+  thread_done s 2 (OStatus 204) /\ thread_done s 3 (OForward (Some 2%N) None).
+Proof. exact relogin_overwrite. Qed.
+Print Assumptions c05_relogin_overwrite_refuted.
+
+(** Non-vacuity: after the local logout of the witness schedule (without the re-login) the key is absent. *)
+Example c05_nonvacuous :
+  let s := run_events (cfg_redis true true true) (init_state 3600)
+             [ELogin 1 2; ESpawn 2 KLogoutLocal tk; ERun 2 FNone; ERun 2 FNone] in
+  alookup 1%N (w_store (m_w s)) = None /\ thread_done s 2 (OStatus 204).
+Proof. vm_compute. split; [reflexivity|eexists; split; reflexivity]. Qed.
